@@ -181,12 +181,15 @@ theorem generated_clean_record_eq_model (h : Json → Str) (c : Colors) (d : Lis
     rw [List.map_cons, generated_clean_member_eq_model, ← ih]
     simp only [cleanObj]
 
-/-- **`format`**: sanitise first, then the URL rule over the whole sanitised record — the order
-found in the source. -/
+/-- **`format(record)`**: the inner formatter turns the record (template, %-arguments, traceback) into a
+line; that line is sanitised; then the URL rule runs over the whole sanitised record, *guarded by a test
+on that same text* — the order and the guard found in the source.  `LogRec.msg` (the template
+`record.msg`) does not occur on the right-hand side: a guard or a stage of the source that reads the
+template instead of the formatted text is translated as such and this proof fails. -/
 theorem generated_format_eq_model (h : Json → Str) (can : Bool) (parse : Str → Option (List (Str × Json)))
-    (record : Str) :
-    Gen.SanitiseFns.format (sanitize h can parse) redactUrl record = format h can parse record := by
-  simp only [Gen.SanitiseFns.format, format, Gen.Sanitise.urlGuard]
+    (orig : LogRec → Str) (record : LogRec) :
+    Gen.SanitiseFns.format orig (sanitize h can parse) redactUrl record = formatRec h can parse orig record := by
+  simp only [Gen.SanitiseFns.format, formatRec, format, Gen.Sanitise.urlGuard]
   split <;> simp_all
 
 /-- **`sanitize_record` after the isolation loop**, JSON branch: the cleaned message (colours on) is
@@ -568,6 +571,88 @@ theorem quote_in_userinfo_breaks_strict_noninterference :
   intro h
   exact absurd (h '\'' (List.mem_singleton.mpr rfl)) (by decide)
 
+/-! ## the ways a message reaches the formatter (round 4)
+
+`format()` is handed a `LogRecord`: the template the caller wrote (`record.msg`), the %-arguments
+(`record.args`), the traceback.  A URL or a JSON object can arrive through any of them
+(`logger.error("cannot connect to %s", url)`, `logger.info("%s", json_text)`, a message object with
+`__str__`, an exception text).  The theorems of this section are stated on the translation of the
+source's `format` *with the record in scope* and for every inner formatter, so that what is scrubbed and
+sanitised is provably the formatted text, whatever way its parts came in. -/
+
+/-- **The scrub is over the formatted record.**  For every inner formatter and any two records —
+any templates, any arguments — whose formatted lines differ only in the user-info of a URL, the source's
+`format` returns the same text.  Nothing is assumed about where in the record the URL came from. -/
+theorem url_in_formatted_record_removed (h : Json → Str) (can : Bool) (parse : Str → Option (List (Str × Json)))
+    (orig : LogRec → Str) (r₁ r₂ : LogRec) (pre post u₁ u₂ : Str)
+    (hu₁ : UrlSafe u₁) (hu₂ : UrlSafe u₂)
+    (e₁ : orig r₁ = pre ++ urlTail u₁ post) (e₂ : orig r₂ = pre ++ urlTail u₂ post)
+    (hp₁ : isolate parse [] (splitOn '|' (pre ++ urlTail u₁ post)) = none)
+    (hp₂ : isolate parse [] (splitOn '|' (pre ++ urlTail u₂ post)) = none) :
+    Gen.SanitiseFns.format orig (sanitize h can parse) redactUrl r₁
+      = Gen.SanitiseFns.format orig (sanitize h can parse) redactUrl r₂ := by
+  rw [generated_format_eq_model, generated_format_eq_model, formatRec, formatRec, e₁, e₂]
+  exact plain_text_url_userinfo_removed h can parse pre post u₁ u₂ hu₁ hu₂ hp₁ hp₂
+
+/-- **… and so is the sanitising.**  Two records — any templates, any arguments — whose formatted lines
+are the same header followed by JSON objects with the same erasure are formatted to the same text
+(`logger.info("%s", json_text)` is sanitised like `logger.info(json_text)`). -/
+theorem json_in_formatted_record_noninterference (h : Json → Str) (can : Bool)
+    (parse : Str → Option (List (Str × Json))) (orig : LogRec → Str) (r₁ r₂ : LogRec)
+    (header j₁ j₂ : Str) (d₁ d₂ : List (Str × Json))
+    (e₁ : orig r₁ = header ++ '|' :: j₁) (e₂ : orig r₂ = header ++ '|' :: j₂)
+    (hj₁ : parse j₁ = some d₁) (hj₂ : parse j₂ = some d₂)
+    (ho₁ : firstNonSpace j₁ = some '{') (ho₂ : firstNonSpace j₂ = some '{')
+    (hno₁ : ∀ fs, fs ≠ [] → fs <:+ splitOn '|' header → parse (joinWith '|' (fs ++ splitOn '|' j₁)) = none)
+    (hno₂ : ∀ fs, fs ≠ [] → fs <:+ splitOn '|' header → parse (joinWith '|' (fs ++ splitOn '|' j₂)) = none)
+    (he : eraseObj h d₁ = eraseObj h d₂) :
+    Gen.SanitiseFns.format orig (sanitize h can parse) redactUrl r₁
+      = Gen.SanitiseFns.format orig (sanitize h can parse) redactUrl r₂ := by
+  rw [generated_format_eq_model, generated_format_eq_model, formatRec, formatRec, e₁, e₂]
+  exact format_noninterference h can parse header j₁ j₂ d₁ d₂ hj₁ hj₂ ho₁ ho₂ hno₁ hno₂ he
+
+/-- `template % (x,)` for a template with one `%s` and no other `%`: the argument is spliced in. -/
+theorem pctFormat_one_argument (a b x : Str) (ha : '%' ∉ a) (hb : '%' ∉ b) :
+    pctFormat (a ++ '%' :: 's' :: b) [x] = some (a ++ x ++ b) := by
+  induction a with
+  | nil => rw [List.nil_append, pctFormat_s, pctFormat_plain b hb]; simp
+  | cons c a ih =>
+    have hc : c ≠ '%' := fun e => ha (by simp [e])
+    have ha' : '%' ∉ a := fun m => ha (List.mem_cons_of_mem _ m)
+    rw [List.cons_append, pctFormat_cons_ne _ _ _ hc, ih ha']; simp
+
+/-- **A URL that arrives as a %-argument is scrubbed** (`logger.error("cannot connect to %s", url)`, the
+idiom the logging module recommends): for the standard inner formatter (header fields, the message,
+the traceback), a template with one `%s` — which need not contain `://` — and an argument holding a URL,
+the source's `format` does not depend on the user-info. -/
+theorem url_as_argument_removed (h : Json → Str) (can : Bool) (parse : Str → Option (List (Str × Json)))
+    (header a b p q trailer u₁ u₂ : Str) (ha : '%' ∉ a) (hb : '%' ∉ b)
+    (hu₁ : UrlSafe u₁) (hu₂ : UrlSafe u₂)
+    (hp₁ : isolate parse [] (splitOn '|' ((header ++ a ++ p) ++ urlTail u₁ (q ++ b ++ trailer))) = none)
+    (hp₂ : isolate parse [] (splitOn '|' ((header ++ a ++ p) ++ urlTail u₂ (q ++ b ++ trailer))) = none) :
+    Gen.SanitiseFns.format (fun r => (stdLine header r).getD []) (sanitize h can parse) redactUrl
+        ⟨a ++ '%' :: 's' :: b, [p ++ urlTail u₁ q], trailer⟩
+      = Gen.SanitiseFns.format (fun r => (stdLine header r).getD []) (sanitize h can parse) redactUrl
+        ⟨a ++ '%' :: 's' :: b, [p ++ urlTail u₂ q], trailer⟩ := by
+  have line : ∀ u, (stdLine header ⟨a ++ '%' :: 's' :: b, [p ++ urlTail u q], trailer⟩).getD []
+      = (header ++ a ++ p) ++ urlTail u (q ++ b ++ trailer) := by
+    intro u
+    simp [stdLine, LogRec.getMessage, pctFormat_one_argument a b _ ha hb, urlTail, List.append_assoc]
+  exact url_in_formatted_record_removed h can parse _ _ _ _ _ u₁ u₂ hu₁ hu₂ (line u₁) (line u₂) hp₁ hp₂
+
+/-- The seeded guard, as a counterexample kept in the file: testing the *template* for `://` instead of
+the formatted text is not the model — for `logger.error("to %s", "db://u:p@h")` the template holds no
+URL, the scrub is skipped and the user-info `u:p` is in the record. -/
+theorem a_guard_on_the_template_is_not_the_model :
+    let r : LogRec := ⟨"to %s".toList, ["db://u:p@h".toList], []⟩
+    let orig : LogRec → Str := fun r => (stdLine "n | ".toList r).getD []
+    let line := sanitize (fun _ => []) false (fun _ => none) (orig r)
+    let seeded := if isInfix "://".toList r.msg then redactUrl line else line
+    seeded ≠ formatRec (fun _ => []) false (fun _ => none) orig r
+      ∧ isInfix "u:p".toList seeded = true
+      ∧ isInfix "u:p".toList (formatRec (fun _ => []) false (fun _ => none) orig r) = false := by
+  refine ⟨by decide +kernel, by decide +kernel, by decide +kernel⟩
+
 /-! ## the structured logger -/
 
 /-- **`GoogleLogger.write_event`**: the JSON line it prints and returns for a dict message —
@@ -765,5 +850,17 @@ example :
     isolate parse [] (splitOn '|' ['h', '|', '{', '|', '}']) = some ([['h']], [])
     ∧ redactUrl "a://u:p@h b://q@i @".toList = "a://\x01BOLD_PURLEm<redacted>\x01OFFmh b://\x01BOLD_PURLEm<redacted>\x01OFFmi @".toList := by
   refine ⟨by rfl, by decide⟩
+
+/-- The record-level hypotheses are inhabited: `"to %s" % ("db://u:p@h",)` behind the header `n | `, no
+traceback, is formatted to a line whose user-info is replaced; too few / too many arguments and an unknown
+directive are errors, `%%` is a per cent sign, and no arguments means no formatting at all. -/
+example :
+    formatRec (fun _ => []) false (fun _ => none) (fun r => (stdLine "n | ".toList r).getD [])
+        ⟨"to %s".toList, ["db://u:p@h".toList], []⟩
+      = "n | to db://\x01BOLD_PURLEm<redacted>\x01OFFmh *".toList
+    ∧ pctFormat "%s".toList [] = none ∧ pctFormat "x".toList [['a']] = none ∧ pctFormat "%q".toList [['a']] = none
+    ∧ pctFormat "%d%% of %s".toList [['7'], ['x']] = some "7% of x".toList
+    ∧ (⟨"100%".toList, [], []⟩ : LogRec).getMessage = some "100%".toList := by
+  refine ⟨by decide +kernel, by decide +kernel, by decide +kernel, by decide +kernel, by decide +kernel, by decide +kernel⟩
 
 end C20
